@@ -482,3 +482,130 @@ Lemma e2_read_failure_revert :
     get_thread (threads s5) 5 = Some th5 /\ t_resp th5 = Some (RErr EStoreRead) /\ persisted s5 = persisted s /\
     v_revs s5 = [].
 Proof. vm_compute. eexists. eexists. eexists. eexists. eexists. eexists. eexists. eexists. repeat split. Qed.
+
+(* ==== graceful shutdown ([AClose] / [ACloseOk]) =========================================================================
+   [step s AClose = Some (crash s)], [step s ACloseOk = option_map crash (persist_ok s)] (Model.v, [close] / [close_ok]):
+   the reservation tables, the account locks and the lock queue live in the memory of the commander that is closed:
+   they are gone with the generation (by computation; no invariant is needed). *)
+Lemma e2_close_frees : forall s a s', a = AClose \/ a = ACloseOk -> step s a = Some s' ->
+  v_iks s' = [] /\ v_refs s' = [] /\ v_revs s' = [] /\ v_locks s' = [] /\ v_queue s' = [].
+Proof.
+  intros s a s' [E|E] H; subst a; cbn in H.
+  - inversion H. unfold close, crash. cbn. repeat split.
+  - unfold close_ok in H. destruct (persist_ok s) as [s1|]; [|discriminate]. inversion H. unfold crash. cbn. repeat split.
+Qed.
+
+(* ... and nothing but the batch inside the store call reaches the disk: [AClose] leaves the disk as it is, [ACloseOk]
+   appends exactly the batch in flight (the queued entries are dropped) *)
+Lemma e2_close_disk : forall s s',
+  (step s AClose = Some s' -> persisted s' = persisted s) /\
+  (step s ACloseOk = Some s' -> exists b, v_batch s = Some b /\ persisted s' = persisted s ++ b).
+Proof.
+  intros s s'. split; intro H; cbn in H.
+  - inversion H. reflexivity.
+  - unfold close_ok, persist_ok in H. destruct (v_batch s) as [b|]; [|discriminate]. inversion H. exists b. split; reflexivity.
+Qed.
+
+(* non-vacuity, from [init] by computation.  [e2_close_other]: an unrelated transaction (no key, no reference). *)
+Definition e2_close_other : request := e2_req KCreate 0 0 [(world, 4%N, 10%Z)] 0.
+(* request 1 ([e2_close_other]) has appended its entry: its batch is inside the store call *)
+Definition e2_close_busy (t : tid) : list action := AStart t e2_close_other :: e2_rs t 8.
+(* request 2 (key 7, reference 9) has appended its entry and waits *)
+Definition e2_close_79 (t : tid) : list action := AStart t e2_pay79 :: e2_rs t 12.
+
+(* (1) the entry of request 2 (key 7, reference 9) is QUEUED behind the batch of request 1; [ACloseOk] writes the batch
+   of request 1 and drops the queue: requests 1 and 2 are answered [RCrashed] (nobody is acknowledged), no entry with
+   key 7 is on disk, the tables are empty.  A NEW request 3 with key 7 and reference 9 in the next generation commits:
+   exactly one entry carries key 7, exactly one carries reference 9, and it is the entry of request 3.
+   (2) the entry of request 2 is IN the batch that [ACloseOk] writes: request 2 is answered [RCrashed], its entry is on
+   disk; the retry (request 3, same key) REPLAYS it: [ROk] with the stored transaction id, nothing more written,
+   still exactly one entry with key 7 / reference 9. *)
+Lemma e2_close_then_retry :
+  (exists s0 s1 s th1 th2 th3,
+     run init (e2_rf_fund ++ e2_close_busy 1 ++ e2_close_79 2) = Some s0 /\
+     option_map (map e_owner) (v_batch s0) = Some [1] /\ map (fun e => (e_owner e, e_ik e, e_ref e)) (v_pending s0) = [(2, 7%N, 9%N)] /\
+     v_iks s0 = [7%N] /\ v_refs s0 = [9%N] /\
+     run init (e2_rf_fund ++ e2_close_busy 1 ++ e2_close_79 2 ++ [ACloseOk]) = Some s1 /\
+     map (fun e => (e_owner e, e_ik e, e_ref e)) (persisted s1) = [(0, 0%N, 0%N); (1, 0%N, 0%N)] /\
+     count_where (fun e => N.eqb (e_ik e) 7) (persisted s1) = 0 /\
+     v_pending s1 = [] /\ v_batch s1 = None /\ v_iks s1 = [] /\ v_refs s1 = [] /\ gen s1 = S (gen s0) /\
+     published s1 = published s0 /\
+     run init (e2_rf_fund ++ e2_close_busy 1 ++ e2_close_79 2 ++ [ACloseOk] ++ e2_full79 3) = Some s /\
+     get_thread (threads s) 1 = Some th1 /\ get_thread (threads s) 2 = Some th2 /\ get_thread (threads s) 3 = Some th3 /\
+     t_req th3 = t_req th2 /\ rq_ik (t_req th2) = 7%N /\ rq_ref (t_req th2) = 9%N /\
+     t_resp th1 = Some RCrashed /\ t_resp th2 = Some RCrashed /\ t_resp th3 = Some (ROk (Some 2)) /\
+     map (fun e => (e_owner e, e_ik e, e_ref e)) (persisted s) = [(0, 0%N, 0%N); (1, 0%N, 0%N); (3, 7%N, 9%N)] /\
+     count_where (fun e => N.eqb (e_ik e) 7) (persisted s) = 1 /\
+     count_where (fun e => N.eqb (e_ref e) 9) (persisted s) = 1 /\ v_iks s = [] /\ v_refs s = []) /\
+  (exists s1 s th2 th3,
+     run init (e2_rf_fund ++ e2_close_79 2 ++ [ACloseOk]) = Some s1 /\
+     map (fun e => (e_owner e, e_ik e, e_ref e, e_txid e)) (persisted s1) = [(0, 0%N, 0%N, Some 0); (2, 7%N, 9%N, Some 1)] /\
+     v_iks s1 = [] /\ v_refs s1 = [] /\
+     run init (e2_rf_fund ++ e2_close_79 2 ++ [ACloseOk] ++ AStart 3 e2_pay79 :: e2_rs 3 2) = Some s /\
+     get_thread (threads s) 2 = Some th2 /\ get_thread (threads s) 3 = Some th3 /\ t_req th3 = t_req th2 /\
+     t_resp th2 = Some RCrashed /\ t_resp th3 = Some (ROk (Some 1)) /\ t_entry th3 = None /\
+     persisted s = persisted s1 /\ v_pending s = [] /\ v_batch s = None /\
+     count_where (fun e => N.eqb (e_ik e) 7) (persisted s) = 1 /\
+     count_where (fun e => N.eqb (e_ref e) 9) (persisted s) = 1 /\ v_iks s = [] /\ v_refs s = []).
+Proof.
+  vm_compute. split.
+  - eexists. eexists. eexists. eexists. eexists. eexists. repeat split.
+  - eexists. eexists. eexists. eexists. repeat split.
+Qed.
+
+(* the revert of transaction 1 (request 3) has appended its entry, which is QUEUED behind the batch of request 2;
+   [AClose] (the write of that batch fails, or the commander is closed: state-wise a crash) drops both: request 3 is
+   answered [RCrashed], transaction 1 is not reverted on disk, the table of reverts in progress is empty.  A NEW revert
+   of transaction 1 (request 4) in the next generation commits: exactly one revert entry for transaction 1.
+   With [ACloseOk] instead (the batch of request 2 is written, the queued revert is still dropped): the same. *)
+Lemma e2_close_during_revert :
+  (exists s0 s1 s th3 th4,
+     run init (e2_rf_fund ++ e2_rf_tx1 ++ e2_close_busy 2 ++ AStart 3 e2_rev1 :: e2_rs 3 10) = Some s0 /\
+     option_map (map e_owner) (v_batch s0) = Some [2] /\ map (fun e => (e_owner e, e_reverts e)) (v_pending s0) = [(3, Some 1)] /\
+     v_revs s0 = [1] /\
+     run init (e2_rf_fund ++ e2_rf_tx1 ++ e2_close_busy 2 ++ AStart 3 e2_rev1 :: e2_rs 3 10 ++ [AClose]) = Some s1 /\
+     persisted s1 = persisted s0 /\ map e_owner (persisted s1) = [0; 1] /\
+     count_where (fun e => match e_reverts e with Some 1 => true | _ => false end) (persisted s1) = 0 /\
+     v_pending s1 = [] /\ v_batch s1 = None /\ v_revs s1 = [] /\ published s1 = published s0 /\
+     run init (e2_rf_fund ++ e2_rf_tx1 ++ e2_close_busy 2 ++ AStart 3 e2_rev1 :: e2_rs 3 10 ++ [AClose] ++ e2_rf_rev_full 4) = Some s /\
+     get_thread (threads s) 3 = Some th3 /\ get_thread (threads s) 4 = Some th4 /\ t_req th4 = t_req th3 /\
+     rq_kind (t_req th3) = KRevert /\ rq_revert (t_req th3) = 1 /\
+     t_resp th3 = Some RCrashed /\ t_resp th4 = Some (ROk (Some 2)) /\
+     map (fun e => (e_owner e, e_reverts e)) (persisted s) = [(0, None); (1, None); (4, Some 1)] /\
+     count_where (fun e => match e_reverts e with Some 1 => true | _ => false end) (persisted s) = 1 /\ v_revs s = []) /\
+  (exists s th3 th4,
+     run init (e2_rf_fund ++ e2_rf_tx1 ++ e2_close_busy 2 ++ AStart 3 e2_rev1 :: e2_rs 3 10 ++ [ACloseOk] ++ e2_rf_rev_full 4) = Some s /\
+     get_thread (threads s) 3 = Some th3 /\ get_thread (threads s) 4 = Some th4 /\
+     t_resp th3 = Some RCrashed /\ t_resp th4 = Some (ROk (Some 3)) /\
+     map (fun e => (e_owner e, e_reverts e)) (persisted s) = [(0, None); (1, None); (2, None); (4, Some 1)] /\
+     count_where (fun e => match e_reverts e with Some 1 => true | _ => false end) (persisted s) = 1 /\ v_revs s = []).
+Proof.
+  vm_compute. split.
+  - eexists. eexists. eexists. eexists. eexists. repeat split.
+  - eexists. eexists. eexists. repeat split.
+Qed.
+
+(* the same for a reference without a key (request 2: reference 9): queued behind the batch of request 1 and dropped
+   by [ACloseOk]: a NEW request with reference 9 commits, exactly one entry carries the reference; written by
+   [ACloseOk]: the retry finds the reference on disk and is refused ([RErr EConflict]), still exactly one entry *)
+Lemma e2_close_then_retry_ref :
+  (exists s1 s th2 th3,
+     run init (e2_rf_fund ++ e2_close_busy 1 ++ AStart 2 e2_pay09 :: e2_rs 2 10 ++ [ACloseOk]) = Some s1 /\
+     count_where (fun e => N.eqb (e_ref e) 9) (persisted s1) = 0 /\ v_refs s1 = [] /\
+     run init (e2_rf_fund ++ e2_close_busy 1 ++ AStart 2 e2_pay09 :: e2_rs 2 10 ++ [ACloseOk] ++
+               AStart 3 e2_pay09 :: e2_rs 3 10 ++ [APersistOk] ++ e2_rs 3 3) = Some s /\
+     get_thread (threads s) 2 = Some th2 /\ get_thread (threads s) 3 = Some th3 /\ t_req th3 = t_req th2 /\
+     rq_ref (t_req th2) = 9%N /\ t_resp th2 = Some RCrashed /\ t_resp th3 = Some (ROk (Some 2)) /\
+     map (fun e => (e_owner e, e_ref e)) (persisted s) = [(0, 0%N); (1, 0%N); (3, 9%N)] /\
+     count_where (fun e => N.eqb (e_ref e) 9) (persisted s) = 1 /\ v_refs s = []) /\
+  (exists s th2 th3,
+     run init (e2_rf_fund ++ AStart 2 e2_pay09 :: e2_rs 2 10 ++ [ACloseOk] ++ AStart 3 e2_pay09 :: e2_rs 3 2) = Some s /\
+     get_thread (threads s) 2 = Some th2 /\ get_thread (threads s) 3 = Some th3 /\
+     t_resp th2 = Some RCrashed /\ t_resp th3 = Some (RErr EConflict) /\ t_entry th3 = None /\
+     map (fun e => (e_owner e, e_ref e)) (persisted s) = [(0, 0%N); (2, 9%N)] /\ v_pending s = [] /\ v_batch s = None /\
+     count_where (fun e => N.eqb (e_ref e) 9) (persisted s) = 1 /\ v_refs s = []).
+Proof.
+  vm_compute. split.
+  - eexists. eexists. eexists. eexists. repeat split.
+  - eexists. eexists. eexists. repeat split.
+Qed.
